@@ -89,11 +89,9 @@ func (p *Pickle) Handle(c io.Reader) error {
 		log.Debug("pickle.go: decoding pickled data...")
 		rawDecoded, err := decoder.Decode()
 		if err != nil {
-			if err != io.ErrUnexpectedEOF {
-				return fmt.Errorf("error reading pickled data: %s", err.Error())
-			}
-			log.Debug("pickle.go: detected ErrUnexpectedEOF while decoding pickled data, nothing more to decode, breaking")
-			return nil
+			// the whole frame was read before decoding, so also an unexpected EOF
+			// means that the frame is malformed (truncated pickle), not that the peer is done
+			return fmt.Errorf("error reading pickled data: %s", err.Error())
 		}
 		log.Debug("pickle.go: done decoding pickled data")
 
